@@ -15,6 +15,7 @@ import (
 	"os"
 	"sort"
 	"time"
+	"unsafe"
 
 	"simrt"
 )
@@ -23,8 +24,12 @@ import (
 type Addr struct{ S string }
 
 // Network returns "tcp".
+//
+//go:norace
 func (a Addr) Network() string { return "tcp" }
-func (a Addr) String() string  { return a.S }
+
+//go:norace
+func (a Addr) String() string { return a.S }
 
 // Error is the error type of injected faults.
 type Error struct {
@@ -33,9 +38,16 @@ type Error struct {
 	IsTemp    bool
 }
 
-func (e *Error) Error() string   { return e.Msg }
-func (e *Error) Timeout() bool   { return e.IsTimeout }
+//go:norace
+func (e *Error) Error() string { return e.Msg }
+
+//go:norace
+func (e *Error) Timeout() bool { return e.IsTimeout }
+
+//go:norace
 func (e *Error) Temporary() bool { return e.IsTemp }
+
+//go:norace
 func (e *Error) Unwrap() error {
 	if e.IsTimeout {
 		return os.ErrDeadlineExceeded
@@ -99,6 +111,7 @@ type DialAttempt struct {
 	Step int // scheduler step at which the attempt was made
 }
 
+//go:norace
 func curStep() int {
 	if s := simrt.Active(); s != nil {
 		return s.Stats.Steps
@@ -107,12 +120,20 @@ func curStep() int {
 }
 
 // New creates a network.
+//
+//go:norace
 func New(cfg Config, rng *simrt.Rand) *Net {
 	return &Net{Cfg: cfg, rng: rng, listeners: map[string]*Listener{}, St: Stats{Faults: map[string]int{}}}
 }
 
 // Fault counts one fired fault.
-func (n *Net) Fault(kind string) { n.St.Faults[kind]++ }
+//
+//go:norace
+func (n *Net) Fault(kind string) {
+	simrt.QuietBegin()
+	n.St.Faults[kind]++
+	simrt.QuietEnd()
+}
 
 type segment struct {
 	data    []byte
@@ -154,8 +175,11 @@ type Conn struct {
 }
 
 // SimLabel describes the connection in stuck-task reports.
+//
+//go:norace
 func (c *Conn) SimLabel() string { return fmt.Sprintf("conn%d/%s", c.ID, c.side()) }
 
+//go:norace
 func (c *Conn) side() string {
 	if c.Client {
 		return "c"
@@ -164,6 +188,8 @@ func (c *Conn) side() string {
 }
 
 // Pair creates a connected pair without a listener (for ServeConn on both ends).
+//
+//go:norace
 func (n *Net) Pair() (client, server *Conn) {
 	n.nextHost++
 	h := n.nextHost
@@ -172,6 +198,7 @@ func (n *Net) Pair() (client, server *Conn) {
 	return n.pair(ca, sa)
 }
 
+//go:norace
 func (n *Net) pair(ca, sa Addr) (*Conn, *Conn) {
 	a2b := &half{cutAt: -1}
 	b2a := &half{cutAt: -1}
@@ -184,6 +211,7 @@ func (n *Net) pair(ca, sa Addr) (*Conn, *Conn) {
 	return c, s
 }
 
+//go:norace
 func (c *Conn) readable(now time.Time) (bool, time.Time) {
 	if c.closed || c.reset {
 		return true, time.Time{}
@@ -219,8 +247,23 @@ func (c *Conn) readable(now time.Time) (bool, time.Time) {
 }
 
 // Read implements net.Conn.
+//
+//go:norace
 func (c *Conn) Read(b []byte) (int, error) {
 	simrt.Point(simrt.KNetRead, c, c.readable)
+	// the simulated wire is invisible to the race detector (it orders nothing: the Go memory model gives no
+	// edge through a network); the accesses to the caller's buffer are declared like syscall.Read does
+	simrt.QuietBegin()
+	n, err := c.read(b)
+	simrt.QuietEnd()
+	if n > 0 {
+		simrt.RaceWriteRange(unsafe.Pointer(&b[0]), n)
+	}
+	return n, err
+}
+
+//go:norace
+func (c *Conn) read(b []byte) (int, error) {
 	c.Reads++
 	now := time.Now()
 	if c.closed {
@@ -242,7 +285,7 @@ func (c *Conn) Read(b []byte) (int, error) {
 		coalesce := c.n.rng.Chance(c.n.Cfg.Coalesce)
 		for len(h.segs) > 0 && n < len(b) && !now.Before(h.segs[0].readyAt) {
 			sg := &h.segs[0]
-			k := copy(b[n:], sg.data)
+			k := quietCopy(b[n:], sg.data)
 			if h.cutAt >= 0 && h.Delivered+int64(k) > h.cutAt {
 				k = int(h.cutAt - h.Delivered)
 			}
@@ -280,9 +323,11 @@ func (c *Conn) Read(b []byte) (int, error) {
 		return 0, &net.OpError{Op: "read", Net: "tcp", Err: ErrTimeout}
 	}
 	// woken without anything to report (e.g. deadline moved): behave like a spurious timeout-free retry
-	return c.Read(b)
+	simrt.Point(simrt.KNetRead, c, c.readable)
+	return c.read(b)
 }
 
+//go:norace
 func (c *Conn) breakBoth(kind string) {
 	if !c.reset {
 		c.n.Fault(kind)
@@ -291,6 +336,7 @@ func (c *Conn) breakBoth(kind string) {
 	c.Peer.reset = true
 }
 
+//go:norace
 func (c *Conn) latency() time.Duration {
 	d := c.n.Cfg.MinLatency
 	if c.n.Cfg.Jitter > 0 {
@@ -300,8 +346,21 @@ func (c *Conn) latency() time.Duration {
 }
 
 // Write implements net.Conn.  It never blocks: bytes are queued for later delivery.
+//
+//go:norace
 func (c *Conn) Write(b []byte) (int, error) {
 	simrt.Point(simrt.KNetWrite, c, nil)
+	if len(b) > 0 {
+		simrt.RaceReadRange(unsafe.Pointer(&b[0]), len(b))
+	}
+	simrt.QuietBegin()
+	n, err := c.write(b)
+	simrt.QuietEnd()
+	return n, err
+}
+
+//go:norace
+func (c *Conn) write(b []byte) (int, error) {
 	now := time.Now()
 	if c.closed {
 		return 0, &net.OpError{Op: "write", Net: "tcp", Err: ErrClosed}
@@ -329,13 +388,13 @@ func (c *Conn) Write(b []byte) (int, error) {
 			c.n.Fault("epipe")
 			return 0, &net.OpError{Op: "write", Net: "tcp", Err: ErrPipe}
 		}
-		c.wr.Written = append(c.wr.Written, b...)
+		c.wr.Written = quietAppend(c.wr.Written, b)
 		return len(b), werr
 	}
 	h := c.wr
-	h.Written = append(h.Written, b...)
+	h.Written = quietAppend(h.Written, b)
 	c.n.St.BytesSent += int64(len(b))
-	data := append([]byte(nil), b...)
+	data := quietAppend(nil, b)
 	if c.MutateWrite != nil {
 		if c.MutateWrite(k, data) {
 			c.MutateWrite = nil
@@ -379,6 +438,8 @@ func (c *Conn) Write(b []byte) (int, error) {
 }
 
 // Close implements net.Conn: local close; the peer reads EOF after draining.
+//
+//go:norace
 func (c *Conn) Close() error {
 	simrt.Point(simrt.KNetClose, c, nil)
 	if c.closed {
@@ -390,50 +451,78 @@ func (c *Conn) Close() error {
 }
 
 // LocalAddr implements net.Conn.
+//
+//go:norace
 func (c *Conn) LocalAddr() net.Addr { return c.local }
 
 // RemoteAddr implements net.Conn.
+//
+//go:norace
 func (c *Conn) RemoteAddr() net.Addr { return c.rem }
 
 // SetDeadline implements net.Conn.
+//
+//go:norace
 func (c *Conn) SetDeadline(t time.Time) error { c.rdl, c.wdl = t, t; return nil }
 
 // SetReadDeadline implements net.Conn.
+//
+//go:norace
 func (c *Conn) SetReadDeadline(t time.Time) error { c.rdl = t; return nil }
 
 // SetWriteDeadline implements net.Conn.
+//
+//go:norace
 func (c *Conn) SetWriteDeadline(t time.Time) error { c.wdl = t; return nil }
 
 // ---- fault injection and observation (called by the harness under the token or from scheduler events) ----
 
 // Sent returns the tap of bytes this end has written.
+//
+//go:norace
 func (c *Conn) Sent() []byte { return c.wr.Written }
 
 // Received returns how many bytes this end has consumed.
+//
+//go:norace
 func (c *Conn) Received() int64 { return c.rd.Delivered }
 
 // IsClosed reports a local close.
+//
+//go:norace
 func (c *Conn) IsClosed() bool { return c.closed }
 
 // IsBroken reports an injected break.
+//
+//go:norace
 func (c *Conn) IsBroken() bool { return c.reset }
 
 // CutInboundAt breaks the connection once this end has consumed off bytes in total.
+//
+//go:norace
 func (c *Conn) CutInboundAt(off int64) { c.rd.cutAt = off }
 
 // CutNow breaks the connection immediately (both directions).
+//
+//go:norace
 func (c *Conn) CutNow() { c.breakBoth("cut") }
 
 // HalfClose makes this end's reader see EOF after the queued data although the peer did not close.
+//
+//go:norace
 func (c *Conn) HalfClose() { c.rd.fin = true; c.n.Fault("half_close") }
 
 // StallInbound delivers nothing to this end for d.
+//
+//go:norace
 func (c *Conn) StallInbound(d time.Duration) {
 	c.rd.stallTill = time.Now().Add(d)
 	c.n.Fault("stall")
 }
 
 // CorruptInbound flips bits of the byte at absolute inbound offset off on delivery.
+//
+//go:norace
 func (c *Conn) CorruptInbound(off int64, mask byte) {
 	if c.rd.corrupt == nil {
 		c.rd.corrupt = map[int64]byte{}
@@ -442,6 +531,8 @@ func (c *Conn) CorruptInbound(off int64, mask byte) {
 }
 
 // FailWrite makes the k-th Write of this end (0-based) deliver only n bytes and return an error.
+//
+//go:norace
 func (c *Conn) FailWrite(k, n int) {
 	if c.writeFaults == nil {
 		c.writeFaults = map[int]int{}
@@ -450,6 +541,8 @@ func (c *Conn) FailWrite(k, n int) {
 }
 
 // Pending returns the number of undelivered inbound bytes.
+//
+//go:norace
 func (c *Conn) Pending() int {
 	n := 0
 	for _, s := range c.rd.segs {
@@ -472,6 +565,8 @@ type Listener struct {
 }
 
 // Listen creates a listener at addr ("host:port").
+//
+//go:norace
 func (n *Net) Listen(addr string) (*Listener, error) {
 	if l, ok := n.listeners[addr]; ok && !l.closed {
 		return nil, errors.New("listen: address already in use")
@@ -482,13 +577,19 @@ func (n *Net) Listen(addr string) (*Listener, error) {
 }
 
 // SimLabel describes the listener.
+//
+//go:norace
 func (l *Listener) SimLabel() string { return "listener " + l.addr.S }
 
 // Accept implements net.Listener.
+//
+//go:norace
 func (l *Listener) Accept() (net.Conn, error) {
 	simrt.Point(simrt.KNetAccept, l, func(time.Time) (bool, time.Time) {
 		return l.closed || len(l.queue) > 0 || l.tmpErrs > 0, time.Time{}
 	})
+	simrt.QuietBegin()
+	defer simrt.QuietEnd()
 	if l.closed {
 		return nil, &net.OpError{Op: "accept", Net: "tcp", Err: ErrClosed}
 	}
@@ -503,8 +604,12 @@ func (l *Listener) Accept() (net.Conn, error) {
 }
 
 // Close implements net.Listener.
+//
+//go:norace
 func (l *Listener) Close() error {
 	simrt.Point(simrt.KNetClose, l, nil)
+	simrt.QuietBegin()
+	defer simrt.QuietEnd()
 	if l.closed {
 		return &net.OpError{Op: "close", Net: "tcp", Err: ErrClosed}
 	}
@@ -518,14 +623,22 @@ func (l *Listener) Close() error {
 }
 
 // Addr implements net.Listener.
+//
+//go:norace
 func (l *Listener) Addr() net.Addr { return l.addr }
 
 // InjectAcceptErrors makes the next k Accept calls fail with a temporary error.
+//
+//go:norace
 func (l *Listener) InjectAcceptErrors(k int) { l.tmpErrs += k }
 
 // Dial connects to a listener.
+//
+//go:norace
 func (n *Net) Dial(addr string) (net.Conn, error) {
 	simrt.Point(simrt.KNetDial, nil, nil)
+	simrt.QuietBegin()
+	defer simrt.QuietEnd()
 	if n.DialHook != nil {
 		if err := n.DialHook(addr); err != nil {
 			n.Fault("dial_hook_reject")
@@ -558,6 +671,8 @@ func (n *Net) Dial(addr string) (net.Conn, error) {
 }
 
 // FaultKinds returns the sorted fault kinds that fired.
+//
+//go:norace
 func (n *Net) FaultKinds() []string {
 	var ks []string
 	for k := range n.St.Faults {
@@ -565,4 +680,47 @@ func (n *Net) FaultKinds() []string {
 	}
 	sort.Strings(ks)
 	return ks
+}
+
+// quietCopy and quietAppend move bytes without the runtime's copy/growslice, which report to the race
+// detector even from //go:norace code: the simulated wire must be invisible to it (see Conn.Read).
+//
+//go:norace
+func quietCopy(dst, src []byte) int {
+	n := len(src)
+	if len(dst) < n {
+		n = len(dst)
+	}
+	if !simrt.RaceEnabled {
+		return copy(dst[:n], src[:n])
+	}
+	for i := 0; i < n; i++ {
+		dst[i] = src[i]
+	}
+	return n
+}
+
+//go:norace
+func quietAppend(dst, src []byte) []byte {
+	if !simrt.RaceEnabled {
+		return append(dst, src...)
+	}
+	need := len(dst) + len(src)
+	if need > cap(dst) {
+		nc := 2*cap(dst) + 64
+		if nc < need {
+			nc = need
+		}
+		nd := make([]byte, len(dst), nc)
+		for i := range dst {
+			nd[i] = dst[i]
+		}
+		dst = nd
+	}
+	k := len(dst)
+	dst = dst[:need]
+	for i := range src {
+		dst[k+i] = src[i]
+	}
+	return dst
 }
